@@ -430,3 +430,140 @@ func (e *Enc) guardCheckGlobal(g *ssa.Global, write bool, pos token.Pos) {
 		}
 	}
 }
+
+// ---- locks a callee acquires: the caller must not hold them ----
+//
+// A function under contract is verified from an entry state in which its goroutine holds no lock (unless its contract
+// says `opt locks=caller|release`). That is an implicit precondition: a caller that holds lock L and calls a function
+// that acquires L deadlocks on a Mutex, and on an RWMutex a recursive read lock deadlocks as soon as a writer queues
+// between the two acquisitions. calleeLocks finds the declared locks a callee acquires itself (package-level locks;
+// mutex fields of one of its parameters) and, one level down, the package-level locks its static callees acquire.
+
+type calleeLock struct {
+	global *ssa.Global // package-level lock, or
+	param  int         // index into fn.Params of the object whose field is the lock
+	st     types.Type
+	field  int
+	desc   string
+}
+
+func (w *World) calleeLocks(fn *ssa.Function, depth int) []calleeLock {
+	if fn == nil || fn.Blocks == nil {
+		return nil
+	}
+	if w.calleeLockMemo == nil {
+		w.calleeLockMemo = map[*ssa.Function][]calleeLock{}
+	}
+	if r, ok := w.calleeLockMemo[fn]; ok && depth == 0 {
+		return r
+	}
+	var out []calleeLock
+	seen := map[string]bool{}
+	add := func(cl calleeLock) {
+		if !seen[cl.desc] {
+			seen[cl.desc] = true
+			out = append(out, cl)
+		}
+	}
+	for _, b := range fn.Blocks {
+		for _, in := range b.Instrs {
+			var cc *ssa.CallCommon
+			switch x := in.(type) {
+			case *ssa.Call:
+				cc = &x.Call
+			case *ssa.Defer:
+				continue // a deferred Lock is not a pattern; deferred Unlocks are irrelevant here
+			default:
+				continue
+			}
+			callee := cc.StaticCallee()
+			if callee == nil {
+				continue
+			}
+			op, isLock := lockOps[callee.String()]
+			if isLock && (op == "lock" || op == "rlock") && len(cc.Args) > 0 {
+				recv := cc.Args[0]
+				if g, ok := recv.(*ssa.Global); ok && g.Pkg != nil {
+					if w.C.GlobalLocks[g.Pkg.Pkg.Path()+"."+g.Name()] != nil {
+						add(calleeLock{global: g, desc: g.Pkg.Pkg.Path() + "." + g.Name()})
+					}
+					continue
+				}
+				fa, isFA := recv.(*ssa.FieldAddr)
+				if !isFA {
+					if ld, isLoad := recv.(*ssa.UnOp); isLoad && ld.Op == token.MUL {
+						fa, isFA = ld.X.(*ssa.FieldAddr)
+					}
+				}
+				if !isFA {
+					continue
+				}
+				p, isParam := fa.X.(*ssa.Parameter)
+				if !isParam {
+					continue
+				}
+				st := fa.X.Type().Underlying().(*types.Pointer).Elem()
+				su, isStruct := st.Underlying().(*types.Struct)
+				if !isStruct {
+					continue
+				}
+				tc := w.typeContract(st)
+				if tc == nil || tc.lockDecl(su.Field(fa.Field).Name()) == nil {
+					continue
+				}
+				for i, q := range fn.Params {
+					if q == p {
+						add(calleeLock{param: i, st: st, field: fa.Field, desc: fmt.Sprintf("%s.%s of parameter %s", st.String(), su.Field(fa.Field).Name(), p.Name())})
+					}
+				}
+				continue
+			}
+			if depth == 0 && callee.Pkg != nil && fn.Pkg != nil && callee.Pkg == fn.Pkg {
+				for _, cl := range w.calleeLocks(callee, depth+1) {
+					if cl.global != nil {
+						add(cl)
+					}
+				}
+			}
+		}
+	}
+	if depth == 0 {
+		w.calleeLockMemo[fn] = out
+	}
+	return out
+}
+
+// calleeLockObligations: at a call of sfn with the given argument values, none of the locks sfn acquires is held.
+func (e *Enc) calleeLockObligations(sfn *ssa.Function, args []Val, pos token.Pos) {
+	if sfn == nil {
+		return
+	}
+	g := sfn
+	if sfn.Origin() != nil {
+		g = sfn.Origin()
+	}
+	locks := e.W.calleeLocks(g, 0)
+	if len(locks) == 0 {
+		return
+	}
+	for _, cl := range locks {
+		var lref Term
+		if cl.global != nil {
+			lref = e.val(cl.global).T
+		} else {
+			if cl.param >= len(args) {
+				continue
+			}
+			x := args[cl.param].T
+			l := e.fieldLoc(x, cl.st, cl.field)
+			if l.Heap == "" {
+				lref = l.Base
+			} else {
+				lref = sx("subref", x, tInt(int64(cl.field)))
+			}
+		}
+		e.heapDecl("$held", heldSort)
+		H := e.heldArr(e.cur)
+		e.oblige("lock", e.ordName("lock:callee-acquires"), tEq(tSel(H, lref), "0"), pos, "the callee "+sfn.String()+" acquires "+cl.desc+": it must not be held at the call (self-deadlock; a recursive read lock deadlocks once a writer queues in between)")
+	}
+}
